@@ -125,6 +125,7 @@ NEW_KINDS = (1, 3, 5)
 def oracle(c):
     """expected observation by the specification; None (or None entries) where the
     specification does not speak"""
+    c = expand(c)
     k = c["k"]
     if k == "getitem":
         key = c["codon"].upper().replace("U", "T")
@@ -217,75 +218,165 @@ def M(m):
     return "DNA" if m == "dna" else "RNA"
 
 
-def coq_terms(c) -> list[str]:
+LONG = 768          # 256 codons: below this the dtype variants provably coincide (translate_dtype_pinned_guarded)
+COMPRESS = 3000     # longer periodic strings are rendered as firstn n (concat (repeat unit k))
+
+
+def expand(c):
+    """cases may carry long periodic sequences compressed as unit + n (replay files stay small)"""
+    if "unit" in c and "s" not in c:
+        c = dict(c)
+        u, n = c["unit"], c["n"]
+        c["s"] = (u * (n // len(u) + 1))[:n]
+    if "useqs" in c and "seqs" not in c:
+        c = dict(c)
+        c["seqs"] = [(u * (n // len(u) + 1))[:n] + tail for u, n, tail in c["useqs"]]
+    return c
+
+
+def zperiodic(u, n, tail=""):
+    t = f"(firstn (Z.to_nat {n}) (concat (repeat {zstr(u)} (Z.to_nat {n // len(u) + 1}))))"
+    return f"({t} ++ {zstr(tail)})" if tail else t
+
+
+def zs(c):
+    if "unit" in c and c["n"] > COMPRESS:
+        return zperiodic(c["unit"], c["n"])
+    return zstr(expand(c)["s"])
+
+
+def zseqs(c):
+    if "useqs" in c and any(n > COMPRESS for _, n, _ in c["useqs"]):
+        return "[" + ";".join(zperiodic(u, n, tail) for u, n, tail in c["useqs"]) + "]"
+    return "[" + ";".join(zstr(s) for s in expand(c)["seqs"]) + "]"
+
+
+def is_long(c):
+    c = expand(c)
+    if "seqs" in c:
+        return any(len(s) >= LONG for s in c["seqs"])
+    return len(c.get("s", "")) >= LONG
+
+
+def coq_terms(c) -> list:
+    """[(tag, term)]: tag "" = the conforming model; other tags name the model variants WITHOUT a
+    repair: m = minus-strand frame labelling (C12-1), d = dtype of the k-mer index array (C12-4),
+    x = stop handling of empty sequences / alignments (C12-2, C12-3).  The d variants are only
+    evaluated from 256 codons on (below, theorem translate_dtype_pinned_guarded says they coincide)."""
     k = c["k"]
+    b = cbool
     if k == "getitem":
-        return [f"CGetItem {V(c['v'])} {zlit(c['id'])} {zstr(c['codon'])}"]
+        return [("", f"CGetItem {V(c['v'])} {zlit(c['id'])} {zstr(c['codon'])}")]
     if k == "codontable":
-        return [f"CCodonTable {V(c['v'])} {zlit(c['id'])} {cbool(c['minus'])}"]
+        return [("", f"CCodonTable {V(c['v'])} {zlit(c['id'])} {cbool(c['minus'])}")]
+    if k in ("allframes", "sixframes") and c["v"] == "new":
+        s = zs(c)
+        main = (f"CAllFrames New {zlit(c['id'])} {s}" if k == "allframes" else f"CSixframes New {zlit(c['id'])} {M(c['m'])} {s}")
+        t = [("", main), ("m", f"CFramesV false true {zlit(c['id'])} {s}")]
+        if is_long(c):
+            t += [("d", f"CFramesV true false {zlit(c['id'])} {s}"), ("md", f"CFramesV false false {zlit(c['id'])} {s}")]
+        return t
     if k == "allframes":
-        t = [f"CAllFrames {V(c['v'])} {zlit(c['id'])} {zstr(c['s'])}"]
-        return t + ([f"CPinnedFrames {zlit(c['id'])} {zstr(c['s'])}"] if c["v"] == "new" else [])
-    if k == "translate":
-        t = [f"CTranslate {V(c['v'])} {zlit(c['id'])} {zstr(c['s'])} {zlit(c['start'])} {cbool(c['minus'])}"]
-        return t + ([f"CPinnedTranslate {zlit(c['id'])} {zstr(c['s'])} {zlit(c['start'])} {cbool(c['minus'])}"]
-                    if c["v"] == "new" else [])
-    if k == "translate_arr":
-        a = f"{zlit(c['id'])} {zstr(c['s'])} {zlit(c['start'])} {cbool(c['minus'])}"
-        return [f"CTranslate New {a}", f"CPinnedTranslate {a}"]
+        return [("", f"CAllFrames Old {zlit(c['id'])} {zs(c)}")]
     if k == "sixframes":
-        t = [f"CSixframes {V(c['v'])} {zlit(c['id'])} {M(c['m'])} {zstr(c['s'])}"]
-        return t + ([f"CPinnedFrames {zlit(c['id'])} {zstr(c['s'])}"] if c["v"] == "new" else [])
+        return [("", f"CSixframes Old {zlit(c['id'])} {M(c['m'])} {zs(c)}")]
+    if k in ("translate", "translate_arr") and c.get("v", "new") == "new":
+        a = f"{zlit(c['id'])} {zs(c)} {zlit(c['start'])} {cbool(c['minus'])}"
+        t = [("", f"CTranslate New {a}")]
+        if c["minus"]:
+            t.append(("m", f"CTranslateV false true {a}"))
+        if is_long(c):
+            t.append(("d", f"CTranslateV true false {a}"))
+            if c["minus"]:
+                t.append(("md", f"CTranslateV false false {a}"))
+        return t
+    if k == "translate":
+        return [("", f"CTranslate Old {zlit(c['id'])} {zs(c)} {zlit(c['start'])} {cbool(c['minus'])}")]
     if k == "app_frames":
-        return [f"CSixframes Old {zlit(c['id'])} DNA {zstr(c['s'])}"]
+        return [("", f"CSixframes Old {zlit(c['id'])} DNA {zs(c)}")]
     if k == "gettrans":
-        a = f"{c['kind']} {zlit(c['id'])} [" + ";".join(zstr(s) for s in c["seqs"]) + "]"
-        return [f"CGetTrans true {a}", f"CGetTrans false {a}"]
+        a = f"{c['kind']} {zlit(c['id'])} {zseqs(c)}"
+        t = [("", f"CGetTrans true true {a}"), ("x", f"CGetTrans false true {a}")]
+        if c["kind"] in NEW_KINDS and is_long(c):
+            t += [("d", f"CGetTrans true false {a}"), ("xd", f"CGetTrans false false {a}")]
+        return t
     if k == "complement":
-        return [f"CComplement {V(c['v'])} {M(c['m'])} {zstr(c['s'])}"]
+        return [("", f"CComplement {V(c['v'])} {M(c['m'])} {zstr(c['s'])}")]
     if k == "rc":
-        return [f"CRc {V(c['v'])} {M(c['m'])} {zstr(c['s'])}"]
+        return [("", f"CRc {V(c['v'])} {M(c['m'])} {zstr(c['s'])}")]
     if k == "rc2":
-        return [f"CRc2 {V(c['v'])} {M(c['m'])} {zstr(c['s'])}"]
+        return [("", f"CRc2 {V(c['v'])} {M(c['m'])} {zstr(c['s'])}")]
     if k == "seqrc":
         a = f"{V(c['v'])} {M(c['m'])} {zstr(c['s'])}"
-        return [f"CRc {a}", f"CComplement {a}", f"CRc2 {a}"]
+        return [("0", f"CRc {a}"), ("1", f"CComplement {a}"), ("2", f"CRc2 {a}")]
     if k == "resolve":
-        return [f"CResolve {V(c['v'])} {M(c['m'])} {zstr(c['motif'])}"]
+        return [("", f"CResolve {V(c['v'])} {M(c['m'])} {zstr(c['motif'])}")]
     if k == "what":
-        return [f"CWhat {M(c['m'])} {zstr(c['motifs'])}"]
+        return [("", f"CWhat {M(c['m'])} {zstr(c['motifs'])}")]
     if k == "degen":
-        return [f"CDegen {V(c['v'])} {M(c['m'])} {zstr(c['symbols'])}"]
+        return [("", f"CDegen {V(c['v'])} {M(c['m'])} {zstr(c['symbols'])}")]
     raise ValueError(k)
 
 
+def _raise_stack_limit():
+    """vm_compute / read-back of 10^5-element lists needs a deep C stack in coqc (child processes inherit)"""
+    import resource
+
+    try:
+        soft, hard = resource.getrlimit(resource.RLIMIT_STACK)
+        resource.setrlimit(resource.RLIMIT_STACK, (hard, hard))
+    except (ValueError, OSError):
+        pass
+
+
 def run_model(cases):
-    terms, spans = [], []
+    _raise_stack_limit()
+    terms, spans, heavy = [], [], []
     for c in cases:
         t = coq_terms(c)
-        spans.append((len(terms), len(t)))
-        terms += t
-    vals = core.coq_eval(PROP, ["Model.GeneticCode", "Model.GeneticCodeRun"], "run_case", terms, "case", shard=250)
+        spans.append((len(terms), [tag for tag, _ in t]))
+        terms += [x for _, x in t]
+        heavy += [("n" in c and c["n"] > COMPRESS) or any(n > COMPRESS for _, n, _ in c.get("useqs", []))] * len(t)
+    light_idx = [i for i, h in enumerate(heavy) if not h]
+    heavy_idx = [i for i, h in enumerate(heavy) if h]
+    imports = ["Model.GeneticCode", "Model.GeneticCodeRun"]
+    vals = [None] * len(terms)
+    for idx, shard in ((light_idx, 250), (heavy_idx, 1)):
+        got = core.coq_eval(PROP, imports, "run_case", [terms[i] for i in idx], "case", shard=shard,
+                            tag="c" if shard > 1 else "h")
+        for i, v in zip(idx, got):
+            vals[i] = v
     out = []
-    for c, (i, n) in zip(cases, spans):
-        if n == 1:
+    for c, (i, tags) in zip(cases, spans):
+        if tags == [""]:
             out.append(vals[i])
         elif c["k"] == "seqrc":
-            out.append(vals[i:i + n])
+            out.append(vals[i:i + len(tags)])
         else:
-            pinned = vals[i + 1]
-            if c["k"] == "sixframes":
-                pinned = [[j >= 3, j % 3, f] for j, f in enumerate(pinned)]
-            out.append(Dual(vals[i], pinned))
+            alts = {}
+            for j, tag in enumerate(tags[1:], 1):
+                v = vals[i + j]
+                if c["k"] == "sixframes":
+                    v = [[q >= 3, q % 3, f] for q, f in enumerate(v)]
+                alts[tag] = v
+            out.append(Multi(vals[i], alts))
     return out
 
 
-class Dual:
-    """model outputs of a case for which the model exists in two variants: `main` = the
-    specification-conforming code (with the proposed repairs), `pinned` = the code before them"""
+class Multi:
+    """model outputs of a case for which the model exists in several variants: `main` = the
+    specification-conforming code (with every proposed repair), `alts[tag]` = the code without
+    the repairs named by the letters of `tag` (see coq_terms)"""
 
-    def __init__(self, main, pinned):
-        self.main, self.pinned = main, pinned
+    def __init__(self, main, alts):
+        self.main, self.alts = main, alts
+
+    def explain(self, observed):
+        """smallest set of missing repairs whose model variant equals the observation, or None"""
+        for tag in sorted(self.alts, key=lambda t: (len(t), t)):
+            if self.alts[tag] == observed:
+                return tag
+        return None
 
 
 # ------------------------------------------------------------------ generators
@@ -333,6 +424,39 @@ def exhaustive_block(tier, widen=False):
             if n >= 1:
                 cases.append(dict(k="sixframes", v="old", id=cid, m="dna", s=s, block="all-lengths"))
                 cases.append(dict(k="sixframes", v="old", id=cid, m="rna", s=s.replace("T", "U"), block="all-lengths"))
+    # dtype boundaries of the k-mer index array: 255 / 256 / 257 codons in every frame, both strands,
+    # every entry point (finding C12-4); thorough: the uint16 -> uint32 boundary at 65536 codons
+    unit = "ATGGCCAAGTTTGACTGGTATCCGTAC"   # 9 sense codons in every code's frame 0? (content is irrelevant to the oracle)
+    for n in range(764, 774):
+        for v in VS:
+            cases.append(dict(k="allframes", v=v, id=1, unit=unit, n=n, block="dtype-boundary"))
+    for cid in (2, 11):
+        for n in (767, 768, 770):
+            cases.append(dict(k="allframes", v="new", id=cid, unit=unit, n=n, block="dtype-boundary"))
+    for n in (767, 768, 771):
+        cases.append(dict(k="sixframes", v="new", id=1, m="dna", unit=unit, n=n, block="dtype-boundary"))
+        cases.append(dict(k="sixframes", v="old", id=1, m="dna", unit=unit, n=n, block="dtype-boundary"))
+        cases.append(dict(k="app_frames", id=1, unit=unit, n=n, block="dtype-boundary"))
+        for minus in (False, True):
+            cases.append(dict(k="translate_arr", id=1, unit=unit, n=n, start=0, minus=minus, block="dtype-boundary"))
+    amb = (unit[:11] + "N" + unit[12:20] + "-" + unit[21:])
+    cases.append(dict(k="allframes", v="new", id=1, unit=amb, n=770, block="dtype-boundary"))
+    sense = "ATGGCCAAG"
+    for ncod in (255, 256, 257):
+        for tail in ("", "TAA", "TAAC"):
+            for kind in (0, 1, 5, 6):
+                cases.append(dict(k="gettrans", kind=kind, id=1, useqs=[[sense, 3 * ncod, tail]], block="dtype-boundary"))
+        for kind in (2, 3):
+            cases.append(dict(k="gettrans", kind=kind, id=1, useqs=[[sense, 3 * ncod, "TAA"], [sense, 9, ""]], block="dtype-boundary"))
+        for kind in (4, 7):
+            cases.append(dict(k="gettrans", kind=kind, id=1, useqs=[[sense, 3 * ncod, "TAA"], [sense, 3 * ncod, "AAA"]],
+                              block="dtype-boundary"))
+    if tier == "thorough":
+        for n in (3 * 65535, 3 * 65536, 3 * 65536 + 2):
+            for v in VS:
+                cases.append(dict(k="translate", v=v, id=1, unit=unit, n=n, start=0, minus=False, block="dtype-boundary"))
+        cases.append(dict(k="translate", v="new", id=1, unit=unit, n=3 * 65536 + 1, start=1, minus=True, block="dtype-boundary"))
+        cases.append(dict(k="allframes", v="new", id=1, unit=unit, n=30000, block="dtype-boundary"))
     # complement / rc on every printable symbol, every table
     for v in VS:
         for m in MS:
@@ -427,6 +551,22 @@ def rand_cds(rng, cid, gaps=False, ambig=False, ncod=None):
 
 def random_block(rng, n, maxlen):
     cases = []
+    # random content around and beyond the 256-codon boundary (ambiguity symbols and gaps included)
+    for i in range(max(6, n // 120)):
+        ln = rng.choice([765, 766, 767, 768, 769, 770, 771, 772, 800, 1000, 1536, 2000])
+        s = "".join(rng.choice("ACGT" if rng.random() < 0.97 or i % 2 == 0 else "NR-?Y") for _ in range(ln))
+        kind = rng.choice(["allframes", "allframes", "sixframes", "translate", "gettrans"])
+        cid = rng.choice(IDS)
+        if kind == "allframes":
+            cases.append(dict(k="allframes", v=rng.choice(VS) if is_canon(s) else "new", id=cid, s=s, block="random-long"))
+        elif kind == "sixframes":
+            cases.append(dict(k="sixframes", v="new", id=cid, m="dna", s=s, block="random-long"))
+        elif kind == "translate":
+            cases.append(dict(k="translate", v="new", id=cid, s=s, start=rng.choice([0, 1, 2, 3, 300]), minus=rng.random() < 0.5,
+                              block="random-long"))
+        else:
+            cases.append(dict(k="gettrans", kind=rng.choice([1, 1, 3, 5, 0, 2]), id=cid, seqs=[s.replace("-", "A").replace("?", "C")],
+                              block="random-long"))
     for _ in range(n):
         r = rng.random()
         cid = rng.choice(IDS)
@@ -501,6 +641,7 @@ def random_block(rng, n, maxlen):
 
 def strand_shape(c, bad_idx):
     """classifier of a failing translation: object, strand of the failing frames, length class"""
+    c = expand(c)
     s = c.get("s", "")
     if c["k"] in ("translate", "translate_arr"):
         minus = bool(c["minus"])
@@ -540,6 +681,7 @@ def _effectively_empty(cid, s):
 
 
 def gettrans_key(c, bad_idx, ir):
+    c = expand(c)
     kind = c["kind"]
     seqs = [rc_spec(s) if kind in (5, 6) and is_canon(s) else s for s in c["seqs"]]
     if any(_effectively_empty(c["id"], s) for s in seqs) and ir is not None and bad_idx and \
@@ -588,18 +730,45 @@ def norm_sixframes(c, x):
     return x
 
 
+KEY_DTYPE = "new-gc:kmer-index-dtype"
+
+
+def keys_for(c, tag, bad_idx, ir):
+    """violation keys of an observation that equals the model variant `tag` (one key per missing repair)"""
+    out = []
+    for letter in tag:
+        if letter == "m":
+            out.append(KEY_MINUS_LABEL)
+        elif letter == "d":
+            out.append(KEY_DTYPE)
+        elif letter == "x":
+            out.append(gettrans_key(c, bad_idx, ir))
+    return out
+
+
+def clip(x, n=400):
+    """replay files keep long observations readable"""
+    if isinstance(x, str) and len(x) > n:
+        return x[:n] + f"...<{len(x)} chars>"
+    if isinstance(x, list):
+        return [clip(e, n) for e in x]
+    if isinstance(x, dict):
+        return {k: clip(v, n) for k, v in x.items()}
+    return x
+
+
 def compare(rep, cases, impl, model):
-    """returns (disagreements, n_spec_violations, n_unmodelled, violating new-object frame cases)"""
+    """returns (disagreements, n_spec_violations, n_unmodelled, {key: observations equal to a pre-repair model variant})"""
     dis, nvio, nun = [], 0, 0
     npinned: dict = {}
-    frame_vios = npinned
-    for c, ir, mr in zip(cases, impl, model):
+    for c0, ir, mr in zip(cases, impl, model):
+        c = expand(c0)
         ir = from_jsonable(ir)
         exp = oracle(c)
         if isinstance(ir, dict) and "exc" in ir:
             nvio += 1
             rep.violation(f"raised:{c['k']}:{c.get('v', '')}",
-                          dict(case=c, observed_impl=ir,
+                          dict(case=c0, observed_impl=ir,
                                broken="the implementation runner crashed or hung on a valid input"))
             continue
         bad = []
@@ -612,25 +781,30 @@ def compare(rep, cases, impl, model):
                     bad = [i for i, (a, b) in enumerate(zip(ie, exp)) if b is not None and not same(a, b)]
             else:
                 bad = [] if same(ir, exp) else [0]
-        main, pinned = (mr.main, mr.pinned) if isinstance(mr, Dual) else (mr, None)
+        main = mr.main if isinstance(mr, Multi) else mr
+        tag = mr.explain(ir) if isinstance(mr, Multi) else None
+        alt = mr.alts[tag] if tag else None
+
+        def report(keys, bad_idx, broken):
+            for key in keys:
+                rep.violation(key, clip(dict(case=c0, expected_by_spec=jsonable(exp), observed_impl=jsonable(ir),
+                                             model_output=jsonable(main), pre_repair_model_output=jsonable(alt),
+                                             equals_pre_repair_model=tag, failing_entries=bad_idx, broken=broken)))
+
         if bad:
             nvio += 1
-            # the pre-repair pattern: the conforming model agrees with the specification on this
-            # input and the implementation equals the pre-repair model
+            # a known defect pattern: the conforming model agrees with the specification on this
+            # input and the implementation equals the model without some of the repairs
             main_ok = not [i for i, (a, b) in enumerate(zip(entries(main), entries(exp)))
                            if b is not None and not same(a, b)] if main is not None else False
-            is_pinned = pinned is not None and ir == pinned and main_ok
-            if is_pinned:
-                key = finding_key(c, bad, ir)
-                npinned[key] = npinned.get(key, 0) + 1
-            elif c["k"] == "gettrans":
-                key = gettrans_key(c, bad, ir)
+            if tag and main_ok:
+                keys = keys_for(c, tag, bad, ir)
+                for key in keys:
+                    npinned[key] = npinned.get(key, 0) + 1
             else:
-                key = classify(c, bad)
-            rep.violation(key, dict(case=c, expected_by_spec=jsonable(exp), observed_impl=jsonable(ir),
-                                    model_output=jsonable(main), pre_repair_model_output=jsonable(pinned),
-                                    equals_pre_repair_model=is_pinned, failing_entries=bad,
-                                    broken="observation differs from the NCBI-table / IUPAC specification oracle"))
+                tag, alt = None, None
+                keys = [gettrans_key(c, bad, ir) if c["k"] == "gettrans" else classify(c, bad)]
+            report(keys, bad, "observation differs from the NCBI-table / IUPAC specification oracle")
             continue
         if main is None:
             continue  # model not available in this run
@@ -638,24 +812,22 @@ def compare(rep, cases, impl, model):
             nun += 1
         if not differing(ir, main) if isinstance(ir, list) else ir == main:
             continue
-        if pinned is not None and ir == pinned:
+        if tag:
             bad2 = differing(ir, main)
-            key = finding_key(c, bad2, ir)
-            npinned[key] = npinned.get(key, 0) + 1
+            keys = keys_for(c, tag, bad2, ir)
+            for key in keys:
+                npinned[key] = npinned.get(key, 0) + 1
             nvio += 1
-            rep.violation(key, dict(case=c, expected_by_spec=jsonable(exp), observed_impl=jsonable(ir),
-                                    model_output=jsonable(main), pre_repair_model_output=jsonable(pinned),
-                                    equals_pre_repair_model=True, failing_entries=bad2,
-                                    broken="the implementation equals the pre-repair model (a known defect pattern) and "
-                                           "differs from the conforming model; the oracle is silent on this input "
-                                           "(non-canonical symbols)"))
+            report(keys, bad2, "the implementation equals a pre-repair model variant (a known defect pattern) and differs "
+                               "from the conforming model; the oracle is silent on this input (non-canonical symbols)")
             continue
-        dis.append(dict(key=classify(c), case=c, observed_impl=jsonable(ir), model_output=jsonable(main),
-                        pre_repair_model_output=jsonable(pinned), expected_by_spec=jsonable(exp)))
-    return dis, nvio, nun, frame_vios
+        dis.append(clip(dict(key=classify(c), case=c0, observed_impl=jsonable(ir), model_output=jsonable(main),
+                             expected_by_spec=jsonable(exp))))
+    return dis, nvio, nun, npinned
 
 
 def nontrivial(c) -> bool:
+    c = expand(c)
     k = c["k"]
     if k in ("allframes", "sixframes", "app_frames"):
         return len(c["s"]) >= 3
@@ -723,15 +895,16 @@ def run(tier: str, seed: int) -> int:
     dis, nvio, nun, frame_vios = compare(rep, cases, impl, model)
 
     if frame_vios:
-        rep.notes.append("observations equal to the pre-repair model (translate_pinned / unrepaired stop handling), by key: "
+        rep.notes.append("observations equal to a pre-repair model variant (minus-strand labels C12-1, index dtype C12-4, "
+                         "unrepaired stop handling C12-2/3), by key: "
                          + json.dumps(frame_vios, sort_keys=True))
     nt = {json.dumps(c, sort_keys=True) for c in cases if nontrivial(c)}
     dist: dict = {}
     for c in cases:
         key = f"{c['block']}:{c['k']}"
         dist[key] = dist.get(key, 0) + 1
-    lens = [len(c["s"]) for c in cases if "s" in c]
-    sample_i = next((i for i, c in enumerate(cases) if c["k"] == "allframes" and len(c["s"]) == 10), 0)
+    lens = [len(expand(c)["s"]) for c in cases if "s" in c or "unit" in c]
+    sample_i = next((i for i, c in enumerate(cases) if c["k"] == "allframes" and len(c.get("s", "")) == 10), 0)
     rep.coverage.update(
         evaluations=len(cases), distinct_nontrivial=len(nt),
         rule="one evaluation = one call (or fixed bundle: 64 codons / 6 frames / 8 stop-option combinations) of an entry "
@@ -741,6 +914,8 @@ def run(tier: str, seed: int) -> int:
         samples=[dict(case=cases[sample_i], impl=impl[sample_i], oracle=jsonable(oracle(cases[sample_i])))],
         input_distribution=dict(cases=len(cases), by_block_and_kind=dist, codes=len(IDS),
                                 seq_len_max=max(lens) if lens else 0,
+                                codons_256_or_more=sum(1 for x in lens if x >= LONG),
+                                codons_65536_or_more=sum(1 for x in lens if x >= 3 * 65536),
                                 seq_len_mod3=[sum(1 for x in lens if x % 3 == r) for r in range(3)]),
         model_impl_disagreements=len(dis), spec_violations=nvio, outside_model=nun,
         translator_tie="ok" if terr is None else f"broken: {terr}",
@@ -770,18 +945,18 @@ def replay(path: str) -> int:
     impl = from_jsonable(core.run_impl_lines("c12_impl.py", [c])[0])
     exp = oracle(c)
     print("case  :", json.dumps(c))
-    print("impl  :", jsonable(impl))
-    print("oracle:", jsonable(exp))
+    print("impl  :", clip(jsonable(impl)))
+    print("oracle:", clip(jsonable(exp)))
     if exp is None:
         try:
             mr = run_model([c])[0]
         except core.CheckError as e:
             print("model not runnable:", str(e)[:200])
             return 1
-        main = mr.main if isinstance(mr, Dual) else mr
-        print("model :", jsonable(main))
-        if isinstance(mr, Dual):
-            print("pre-repair model:", jsonable(mr.pinned))
+        main = mr.main if isinstance(mr, Multi) else mr
+        print("model :", clip(jsonable(main)))
+        if isinstance(mr, Multi):
+            print("equals model variant without repairs:", mr.explain(impl))
         bad = bool(differing(impl, main)) if isinstance(impl, list) else impl != main
     elif isinstance(exp, list) and isinstance(impl, list) and len(exp) == len(impl) and c["k"] != "resolve":
         bad = any(b is not None and not same(a, b) for a, b in zip(impl, exp))
